@@ -315,11 +315,14 @@ def heap_stage(tier_, key):
             # type-confusing guards: only the implementation is explored (Heap.tla models the safe guards)
             specs.append({"tag": "P%d-unsafe" % P, "cfg": corpus.cfg(P, 0, 0, unsafe=True), "depth": 5 if q else 6, "log_depth": 0,
                           "ops": HEAP_OPS + [0x56, 0x93, 0x51], "seeds": [1, 2, 3], "max_nodes": 0 if q else 2500000})
+            # random walks far beyond the breadth-first depth: every aliasing-relevant transition is validated
+            specs.append({"tag": "P%d-walk" % P, "cmd": "heapwalk", "cfg": corpus.cfg(P, 0, 0), "walks": 60 if q else 500, "steps": 60 if q else 90,
+                          "ops": HEAP_OPS, "seed": sub_seed("heapwalk", tier_) % (2 ** 32) + P, "bias": 4})
         def bfs(ix_spec):
             ix, sp = ix_spec
             sf = os.path.join(d, "heap_spec_%d.json" % ix); json.dump(sp, open(sf, "w"))
             of = os.path.join(d, "heap_%d.ndjson" % ix)
-            p = run([PFV, "heapbfs", sf, of], timeout=7200)
+            p = run([PFV, sp.get("cmd", "heapbfs"), sf, of], timeout=7200)
             summ = json.loads(p.stdout.strip().split("\n")[-1]); summ["tag"] = sp["tag"]
             return of, summ
         from concurrent.futures import ThreadPoolExecutor
@@ -336,13 +339,13 @@ def heap_stage(tier_, key):
                     if f["record"] is not None:
                         r = f["record"]
                         # keep the replay small: the heaps are recomputed by replaying the path
-                        f["record"] = {k: r[k] for k in ("t", "P", "op", "key", "path", "claimed", "keys", "seeds", "cycle", "leaked") if k in r}
+                        f["record"] = {k: r[k] for k in ("t", "P", "op", "key", "path", "claimed", "keys", "seeds", "cycle", "leaked", "walk", "at") if k in r}
                         f["record"]["bfs"] = summ["tag"]
                     findings.append(f)
             return findings, states, recs_n, [o[1] for o in outs]
         findings, states, recs_n, summaries = explore(specs, 0)
         # drift-directed: where the implementation's aliasing differs from the model, search deeper from there
-        drift = [f for f in findings if f["kind"] == "D" and f["tag"] == "heap-effect" and f["record"]]
+        drift = [f for f in findings if f["kind"] == "D" and f["tag"] == "heap-effect" and f["record"] and "walk" not in f["record"]]
         extra, seen = [], set()
         for f in sorted(drift, key=lambda f: len(f["record"]["path"])):
             r = f["record"]
@@ -356,7 +359,8 @@ def heap_stage(tier_, key):
             f2, s2, n2, sm2 = explore(extra, 100)
             findings += [f for f in f2 if f["kind"] == "V"]; states += s2; recs_n += n2; summaries += sm2
         return {"findings": findings,
-                "coverage": {"bfs_runs": summaries, "heap_states_visited": sum(s["nodes"] for s in summaries),
+                "coverage": {"bfs_runs": summaries, "heap_states_visited": sum(s["nodes"] for s in summaries if "walk" not in s["tag"]),
+                             "random_walks": sum(s["nodes"] for s in summaries if "walk" in s["tag"]),
                              "forced_transitions": sum(s["trials"] for s in summaries),
                              "transitions_validated_against_Heap_tla": sum(s["steps_logged"] for s in summaries),
                              "states_with_cycle": sum(s["with_cycle"] for s in summaries), "states_leaking": sum(s["leaking"] for s in summaries),
